@@ -631,6 +631,13 @@ func checkTypedClients(c *Ctx, rels []string) {
 		}
 		c.check(bad == "", rule, rel+":NewClient/group-and-resource-agree-with-client-go", pos, "", rel+": NewClient: "+bad)
 	}
+	checkClientRequestFlows(c)
+}
+
+// checkClientRequestFlows: every List/Watch call builds its own request from
+// the captured (c, res, ns) and the call's own options and context.
+func checkClientRequestFlows(c *Ctx) {
+	rule := "T-SIBLING(NewClient)"
 	// client.ForResource: ns → Namespace, res → Resource, ctx → Do/Watch in both closures
 	for _, k := range [][2]string{{"makeResourceListFn$1", "Do"}, {"makeResourceWatchFn$1", "Watch"}} {
 		fn := c.mustFunc("client", k[0])
@@ -658,7 +665,11 @@ func checkTypedClients(c *Ctx, rels []string) {
 						sawRes = true
 					}
 				case strings.HasSuffix(n, "rest.Request.VersionedParams"):
-					sawParams = true
+					// the options of *this* call (the closure's own parameter)
+					if len(e.Args) >= 2 && strings.Contains(e.Args[1].Key(), "opts") {
+						sawParams = true
+					}
+				case strings.HasSuffix(n, "rest.Request.Get"):
 				case strings.HasSuffix(n, "rest.Request."+k[1]):
 					if len(e.Args) == 2 && e.Args[1].K == "param" {
 						sawCtx = true
